@@ -19,7 +19,9 @@ CLAIMED = {
               "parameter or something aliasing one (NumPy views, shallow wrappers, fields shared by _replace/shallow_copy), except the "
               "receiver of the documented in-place API (names ending in '_', set_block, __setitem__, __init__, apply_patch/move_to_patch); "
               "private helpers are summarised and their effects charged to the public callers; copy()/clone() definitions must build "
-              "their result from copied parts; call sites of the in-place kernel fix_svd_signs must pass fresh arrays. The from_dict site "
+              "their result from copied parts, looping over ALL entries of the container they copy; the real MPS copy()/clone()/shallow_copy() run on "
+              "ghost tensors with a central block on every bond (every entry independent / shared as documented); call sites of the in-place kernel "
+              "fix_svd_signs must pass fresh arrays. The from_dict site "
               "that needs path sensitivity is discharged by symbolic execution (C17 obligations). Decided for all inputs and histories "
               "because the obligations are on the code, not on runs."),
         design_ref='DESIGN.md §5 C15',
@@ -33,7 +35,9 @@ CLAIMED = {
               "fermionic flags and fusion data must arrive as arguments), W it writes through none of its parameters (directly or via "
               "helpers) and touches no module state, O in every analysed caller the returned value and everything unpacked from it is only "
               "read (no store, no mutating method, not passed to a helper that writes through that parameter); and clear_cache / "
-              "set_cache_maxsize / get_cache_info administer exactly the memoised functions. Together with the fact that all SMT packs "
+              "set_cache_maxsize / get_cache_info administer exactly the memoised functions; K (key adequacy) over harness runs covering every way the "
+              "callers build each key component (fermionic True / per-component tuples, all symmetries, policies), the scalars inside a component are "
+              "never bools in one call and ints in another (True == 1 would let two configurations share an entry). Together with the fact that all SMT packs "
               "interpret the UNcached bodies, cached and uncached execution are extensionally equal for every history."),
         design_ref='DESIGN.md §5 C16',
         note="Trusted: functools.lru_cache, hashability/equality of argument types (Python raises on unhashable keys), pyvc.frame's rules. Callers outside the analysed files are not seen. No bounded cold/warm relational run was built.",
@@ -57,6 +61,8 @@ CLAIMED = {
               "inductive invariant (establish / preserve from an arbitrary state / use): 0 <= t_now <= t_out, the trial step is positive and "
               "never overshoots the remaining time, an accepted step advances the clock by exactly the step tried (or to the end on happy "
               "breakdown) and counts one step, a rejected step leaves the clock alone, so the loop exits with the clock exactly at |t|; "
+              "ghost state 'evolved time': the current vector is the start vector evolved by exactly sgn*t_now (the Krylov step with exp(s*T) evolves the "
+              "basis' first vector by s), so the returned vector is the start vector evolved by t; "
               "1 <= ncv <= max(initial, ncv_max); the estimators never divide by zero; zero vector / t = 0 take no sub-step; zero vector with "
               "normalize raises; the result is rescaled by the accumulated norm iff not normalize. The real expand_krylov_space is interpreted "
               "on ghost vectors: basis only grows, at most ncv+1 vectors, the map is applied once per new direction, H has exactly the "
@@ -86,10 +92,12 @@ CLAIMED = {
               "(interpreted on object arrays), is embedded by the real to_numpy/to_nonsymmetric, and every dense element is proved equal, as a "
               "polynomial identity in the data, to what NumPy gives on the embedded operands: add, sub, scalar multiple, conj, transpose, moveaxis, "
               "add_leg/remove_leg, tensordot (incl. outer product, full contraction, diagonal operand), vdot, trace, broadcast, diag, hard/meta "
-              "fuse+unfuse (norm and values), and blocks+get_legs re-assemble to_numpy."),
+              "fuse+unfuse (norm and values), apply_mask (selection of the masked positions, lazy operand), ncon and einsum (permuted outputs, "
+              "three tensors to a number under several orders, conjugated operands, trace inside a network, outer product), and "
+              "blocks+get_legs re-assemble to_numpy."),
         design_ref='DESIGN.md §5 C01',
-        note=TRUST + "Part B is complete in the data but bounded in structure (enumerated concrete charges/dimensions); floats treated as reals; complex dtypes, ncon/einsum and apply_mask values not covered.",
-        technique='symbolic execution of the real metadata code AND the real NumPy kernels on symbolic real data; polynomial identities discharged by z3 simplification/NRA',
+        note=TRUST + "Part B is complete in the data but bounded in structure (enumerated concrete charges/dimensions, enumerated network shapes); floats treated as reals; complex dtypes not covered.",
+        technique='symbolic execution of the real metadata code AND the real NumPy kernels on symbolic real data; polynomial identities decided exactly by sum-of-monomials normal forms (pyvc.poly), otherwise z3 NRA',
     ),
     'C02': dict(
         category='proof',
@@ -113,16 +121,19 @@ CLAIMED = {
               "tensors with symbolic charges and dimensions: fused tensor well-formed with one leg per group, charge unchanged, every block lands "
               "in the block of its fused charges (group law of the spec), merged sub-blocks occupy disjoint in-bounds boxes (the index map is "
               "injective), unfuse_legs restores legs, history and every original block with its shape, meta->hard equals direct hard fusion, "
-              "nested fusion (depth 2, both modes and mixtures) unfuses layer by layer, invalid groupings rejected with YastnError."),
+              "nested fusion (depth 2, both modes and mixtures) unfuses layer by layer, invalid groupings rejected with YastnError; unfuse_legs under a "
+              "pending lazy transposition puts the unfused legs at the logical positions (two genuine defects found by these obligations and fixed). "
+              "Operands fused from legs with different sector content: for enumerated concrete structures and symbolic data, sums / differences / "
+              "linear combinations of up to four operands in every order, contraction and vdot equal the dense result (missing sectors are zeros)."),
         design_ref='DESIGN.md §5 C03',
-        note=TRUST + "Element values (norm, dense equality) are kernel-level: only the bijection of index sets is proved. Operands fused from legs with different sector content (mask machinery) and block() are not under contract.",
+        note=TRUST + "For symbolic structures only the bijection of index sets is proved (element values: C01 part B and the mismatched-operand harness on concrete structures). block() and fusion depth 3 are not under contract.",
         technique='AST-to-SMT symbolic execution of the real fusion metadata code; kernels as contracts with checked preconditions',
     ),
     'C14': dict(
         category='proof',
         text=("Relational obligations on the real code: identical symbolic operands pushed through tensordot under fuse_to_matrix / "
               "fuse_contracted / no_fusion give the same legs, charge, block set AND storage layout; lazily transposed vs materialised operands "
-              "give the same observable result for tensordot, conj, add_leg, transpose, hard fusion; consume_transpose preserves the logical "
+              "give the same observable result for tensordot, conj, add_leg, transpose, hard fusion and unfuse_legs; consume_transpose preserves the logical "
               "view; meta-fusion followed by fuse_meta_to_hard equals direct hard fusion. Discharged for all charges/dims at each shape."),
         design_ref='DESIGN.md §5 C14',
         note=TRUST + "Equality of dense VALUES across policies is kernel-level (checked natively on replay only). contract_with_unroll/oe_blocksparse not covered.",
@@ -147,10 +158,15 @@ CLAIMED = {
               "block; reverse_sites maps site n to N-1-n with virtual legs swapped, mirrors the central-block bond, and is an involution; add "
               "multiplies each amplitude by its state's factor exactly once (first site), assembles blocks at positions (j,)/(j,j)/(j,) with the "
               "right common legs, N = 1 sums directly, mismatches rejected; multiply gives factor = f_a*f_b, site n = product of sites n contracted "
-              "over (3,1) with pairwise-fused virtual legs, central blocks / MPS-on-the-left rejected. N = 1..5 (quick) / 1..7 (thorough), MPS and MPO."),
+              "over (3,1) with pairwise-fused virtual legs, central blocks / MPS-on-the-left rejected. N = 1..5 (quick) / 1..7 (thorough), MPS and MPO. "
+              "Scalars include complex numbers (pairs of symbolic reals). VALUES: for small chains (N = 2..3/4) with the block structure produced by "
+              "the library's generators (dense, Z2, fermionic Z2 and U1) and ALL tensor entries and norm factors symbolic, measure_overlap, vdot, "
+              "measure_mpo (also sums of MPOs), to_tensor, add with amplitudes, +, -, MPO@MPS, MPO@MPO, MPO+MPO and the environments (Env2, "
+              "Env_mps_mpo_mps with and without precompute, Env_sum, Env_project: measure at every bond, Heff0/Heff1/Heff2 as multilinear forms, "
+              "refresh after a site changes) equal the independent dense contraction, as polynomial identities decided exactly."),
         design_ref='DESIGN.md §5 C06',
-        note="Trusted: pyvc, z3 (polynomial reals), ghost contracts: block = direct sum, tensordot+fuse_legs = product (tensor level: C01, C03), contraction multilinear. Complex amplitudes not modelled. NOT decided: measure_overlap/measure_mpo, zipper, compression, product states, mps_from_tensor represent the dense object (Env2, floating point).",
-        technique='symbolic execution of the real MPS algebra on ghost tensors; state equality as real-scalar VC + structural comparison',
+        note="Trusted: pyvc, z3 (polynomial reals), ghost contracts: block = direct sum, tensordot+fuse_legs = product (tensor level: C01, C03), contraction multilinear. The value part is complete in the data but bounded in structure (enumerated small chains). NOT decided: zipper, variational compression, product states, mps_from_tensor, Env_mpo_mpo_mpo / PBC environments.",
+        technique='symbolic execution of the real MPS algebra on ghost tensors (state equality as real-scalar VC + structural comparison) and of the real environment/measurement code on symbolic real data (polynomial identities by normal forms)',
     ),
     'C07': dict(
         category='proof',
@@ -160,9 +176,16 @@ CLAIMED = {
               "measured from environments holding O at i, P at j and plain transfer matrices elsewhere, every site exactly once, the smaller site "
               "inserted going to 'last' and the larger going to 'first'; i < j carries no sign, i > j is corrected by swap_charges([O.n],[P.n]), "
               "i = j inserts the product O.P once; per-site operator dictionaries skip missing sites; measure_nsite multiplies repeated sites in the "
-              "given order and carries sign_canonical_order. sign_canonical_order / swap_charges obligations shared with C05."),
+              "given order and carries sign_canonical_order. sign_canonical_order / swap_charges obligations shared with C05. generate_mpo for a single "
+              "product term on ghost operators with symbolic charges (all positions incl. repeated / unordered sites, f_map permutations, identity given "
+              "as tensor or list): site n holds the product in the order written, dressed by the parity string of the operators later in fermionic "
+              "order on the ket side, virtual legs carry the accumulated charges and chain consistently, amplitude*ordering sign enters once. VALUES: "
+              "measure_1site / measure_2site (all pairs, both orders, same site) / measure_nsite (permuted and repeated sites) and charged operators "
+              "between different sectors equal <bra|O..|ket> with Jordan-Wigner matrices built from numpy.kron, for small chains with symbolic data "
+              "(spin-1/2 dense/Z2, spinless fermions Z2/U1). BOUNDED (not counted as proved): on-site algebra and to_dict of every predefined "
+              "operator class in every symmetry."),
         design_ref='DESIGN.md §5 C07',
-        note="Trusted: pyvc, the documented convention of Env2.update_env_op_ (its swap-gate contractions are not verified). NOT decided: generate_mpo/Generator/latex2term produce the Jordan-Wigner MPO (SVD compression as a whole), measure_1site, rdm, sampling, dense equality of any expectation value, on-site (anti)commutators of operator families.",
+        note="Trusted: pyvc, z3. NOT decided: generate_mpo for sums of terms (block + SVD compression of the term index), Generator/latex2term parsing, rdm, sampling; the value part is bounded in structure; the operator-algebra check is an exhaustive floating-point evaluation, labelled bounded.",
         technique='symbolic execution of the real measurement drivers against ghost-environment (operator placement) contracts; finite exhaustive check of the bond-pattern parser',
     ),
     'C08': dict(
@@ -174,7 +197,8 @@ CLAIMED = {
               "rewrite q.r -> A, u.s.v -> C) and set factor = 1 otherwise; the central block sits on the bond towards the target, a second one "
               "is rejected, absorption goes to the next site of the sweep (back into the site at chain ends), canonize_ ends without central "
               "block with every site but the last isometric in sweep direction; diagonalize_central_ returns |discarded|/|S| in [0,1] and puts "
-              "the kept norm into the factor; truncate_ visits every bond once in sweep order and reports err^2 = 1 - prod(1 - d_k^2)."),
+              "the kept norm into the factor (computed from the FULL spectrum: svd's contract promises an exact factorisation only for the fullrank "
+              "policy, whatever options opts_svd carries); truncate_ visits every bond once in sweep order and reports err^2 = 1 - prod(1 - d_k^2)."),
         design_ref='DESIGN.md §5 C08',
         note="Trusted: pyvc, z3 (polynomial reals), the ghost contracts of qr/svd/masks/ncon on site tensors (Q, U, V isometric, |S| = |C|, complementary masks partition the spectrum) which also pin the MPS leg convention of every call. NOT decided: tensors ARE isometries, Schmidt values/entropies equal those of the dense state, unit norm after normalize=True (floating point / LAPACK). Chain lengths 1..5 (quick) / 1..7 (thorough).",
         technique='symbolic execution of the real MPS methods on ghost tensors (modular contracts for tensor operations), state equality as real-scalar VC + word rewriting',
@@ -187,9 +211,12 @@ CLAIMED = {
               "current site tensors (so the reported energy is the expectation value in the returned state and each local problem is the true "
               "projected one), every site/bond is optimised once per half sweep in order, sweeps end without central block and canonical towards "
               "first, Schmidt values are collected on the interior bonds, DMRG_out reports sweep count, last energy, dE = |E_old - E|, stops "
-              "early only when converged, yields every iterator_step; invalid arguments rejected. N = 2..5 (quick) / 2..8 (thorough)."),
+              "early only when converged, yields every iterator_step; invalid arguments rejected. N = 2..5 (quick) / 2..8 (thorough). VALUES of the real "
+              "environment classes (Env_mps_mpo_mps with and without precompute, Env_sum, Env_project) on small chains with symbolic data: measure == "
+              "<bra|H|ket> however the environments were assembled, Heff0/Heff1/Heff2 are the projected Hamiltonian as multilinear forms, and "
+              "clear_site_ + update_env_ along a sweep leave no stale environment or cached pre-contraction after a site tensor changed."),
         design_ref='DESIGN.md §5 C09',
-        note="Trusted: pyvc, ghost contracts of tensor operations and of the eigensolver (applies the map, returns a vector of the same shape). NOT decided (listed in evidence): variational bound, monotone decrease, eigenstate at convergence, orthogonality with projections, charge sector -- all rest on eigs/LAPACK and floating point. Env_sum/Env_project/precompute classes not covered.",
+        note="Trusted: pyvc, ghost contracts of tensor operations and of the eigensolver (applies the map, returns a vector of the same shape). NOT decided (listed in evidence): variational bound, monotone decrease, eigenstate at convergence, orthogonality with projections, charge sector -- all rest on eigs/LAPACK and floating point.",
         technique='symbolic execution of the real sweep drivers against ghost-state (provenance) contracts of environment updates; control flow is data independent, so one run per configuration covers all data',
     ),
     'C10': dict(
@@ -201,7 +228,8 @@ CLAIMED = {
               "real MPS/Env bookkeeping with ghost tensors, every mixture of 1- and 2-site updates (enlarge_bond non-deterministic): every "
               "effective-Hamiltonian application uses fresh environments; each half sweep is a valid projector splitting (forward/backward steps "
               "of u*dt/2 alternate, a backward step acts on the overlap of its forward neighbours, every site evolves by -u*dt/2 net); the state "
-              "ends without central block."),
+              "ends without central block. Values of the effective Hamiltonians (Heff0/1/2, with and without precompute) and environment refresh: "
+              "shared with C09."),
         design_ref='DESIGN.md §5 C10',
         note="Trusted: pyvc, z3, ghost contracts (expmv applies the map and returns an evolved tensor). Floats as reals. NOT decided: norm/energy conservation, charge sector, exactness on the full manifold, convergence order (floating point). One genuine defect found and fixed (zero steps for intervals below 1e-12).",
         technique='symbolic execution over reals with an inductive invariant for the stepping loop; ghost-state protocol contracts for the sweeps',
@@ -223,9 +251,16 @@ CLAIMED = {
               "exactly the blocks whose swapped groups are odd-odd in the declared fermionic components; involution; identity for bosonic "
               "statistics; undeclared components never matter), swap_charges, sign_canonical_order (= parity of stable-sort inversions, for "
               "integer order and the lattice fermionic order; reversed pair differs by the exchange sign) and fkron's string/sign bookkeeping; "
-              "discharged by z3 for ALL charges, dimensions and sites at each enumerated shape."),
+              "discharged by z3 for ALL charges, dimensions and sites at each enumerated shape. ORDER INDEPENDENCE of ncon/einsum: the real ncon, "
+              "einsum, _meta_ncon, _resolve_bad_swaps and _execute_commands run on network ghosts (which edge sits on which leg) with a symbolic "
+              "parity per edge; tensordot/trace/transpose/swap_gate enter through their contracts, so the run accumulates a GF(2) quadratic form, "
+              "proved equal for ALL parities to the product of the declared swaps for every accepted contraction order of 22 network shapes (up "
+              "to 4 tensors / 7 edges, bundles, traces, outer products, 1-2 declared swaps, einsum front end, conjugated operands); refusals must "
+              "be YastnError; counter-models replay on real Z2-fermionic tensors. Found and fixed: wrong sign / internal assertion for swaps the "
+              "jump moves cannot resolve. BOUNDED (not counted as proved): dense CAR and product consistency of fkron for every fermionic "
+              "operator family x symmetry on 2-3 sites, all site assignments and application orders."),
         design_ref='DESIGN.md §5 C05',
-        note=TRUST + "negate_blocks kernel assumed to negate exactly the listed intervals. NOT decided: order-independence of ncon/einsum networks with swap gates (sign-form generator not built; F7 anomaly class documented) and the dense CAR check of fkron.",
+        note=TRUST + "negate_blocks kernel assumed to negate exactly the listed intervals. Network shapes enumerated; one fermionic parity per edge (several fermionic components contribute independently by the swap_gate contract). The fkron CAR check is an exhaustive floating-point evaluation over the finite operator families, labelled bounded.",
         technique='AST-to-SMT symbolic execution of the real sign bookkeeping against parity specifications; z3 with cvc5 fallback; native replay',
     ),
     'C20': dict(
